@@ -155,3 +155,13 @@ Proof.
   apply (for_range_fill_from g f body Hb (Z.to_nat n) [] init Hl).
   intros i Hi. simpl. apply Hg. lia.
 Qed.
+
+Lemma for_each_ext_inv {S} (Inv : S -> Prop) (b1 b2 : Z -> S -> res S) ws s0 :
+  Inv s0 -> (forall j s, In j ws -> Inv s -> b1 j s = b2 j s) ->
+  (forall j s s', In j ws -> Inv s -> b2 j s = Ok s' -> Inv s') ->
+  for_each ws b1 s0 = for_each ws b2 s0.
+Proof.
+  revert s0. induction ws as [|j ws IH]; intros s0 H0 He Hp; simpl; [reflexivity|].
+  rewrite (He j s0 (or_introl eq_refl) H0). destruct (b2 j s0) as [s1|e] eqn:E; cbn [bind]; [|reflexivity].
+  apply IH; [eapply Hp; eauto; left; reflexivity| |]; intros; [apply He|eapply Hp]; eauto; right; assumption.
+Qed.
